@@ -11,7 +11,16 @@ Transcribed from
   include/adept/Array.h        operator()(ranged ...) / update_index, operator()(all scalar),
                                operator[], subset, T / in_place_transpose, permute, diag_vector,
                                submatrix_on_diagonal, reshape, soft_link, is_contiguous, empty,
-                               pack_row_major_contiguous_ / pack_column_major_
+                               pack_row_major_contiguous_ / pack_column_major_,
+                               the two view constructors `Array(Type*, Storage*, dims, offset)` and
+                               `Array(const Type*, Index, dims, offset, gradient_index)` (`View.canon`)
+
+Every member that returns a view computes (`data_`, `dimensions_`, `offset_`) of the result — the `…Raw` functions
+below — and hands them to one of the two view constructors, which (F-76) end with the loop "if any of the dimensions
+is zero … all dimensions are zero" (the convention of `Array::resize` for arrays without elements): `View.canon`.
+`operator()`, `subset`, `operator[]`, `permute`, `diag_vector`, `submatrix_on_diagonal`, `reshape`, `inactive_link`
+use the first constructor, `soft_link` and every slicing member of `FixedArray` (FixedArray.h) the second one;
+`T()` of an `Array` does not go through them (it copy-constructs and swaps in place) and is not canonicalised.
 
 The const overloads of these members (`operator() const`, `subset const`, `operator[] const`, `T() const`,
 `soft_link() const`) are separate copies of the same code in the C++; they have the same transcription (the driver
@@ -79,6 +88,22 @@ def View.isEmpty (v : View) : Bool :=
   match v.dims with
   | d :: _ => d == 0
   | [] => false
+
+/-- the loop that ends both view constructors of `Array` (F-76), as in `Array::resize` ("If any of the dimensions is
+    zero, we clear the array completely and all dimensions will be zero"): `dimensions_.set_all(0)` as soon as one
+    dimension is zero -/
+def canonDims (dims : List Nat) : List Nat :=
+  if dims.any (· == 0) then dims.map (fun _ => 0) else dims
+
+/-- the view a view constructor builds from the (`data`, `dims`, `offset`) it is given: `data_` and `offset_` are
+    stored as given, the dimensions canonicalised -/
+def View.canon (v : View) : View := ⟨v.base, canonDims v.dims, v.strides⟩
+
+/-- the view constructor applied to the outcome of a member function -/
+def construct (r : Except Err View) : Except Err View :=
+  match r with
+  | .ok u => .ok u.canon
+  | .error e => .error e
 
 /-! ### index expressions -/
 
@@ -206,23 +231,32 @@ def sliceGo (checked : Bool) : List Nat → List Int → List Ix → Except Err 
       | some (n, o) => .ok (inc + rest, n :: nds, o :: nss)
   | _, _, _ => .error .bad_rank
 
-/-- `Array::operator()(i0,…)` with scalar / range / stride / `__` arguments.  With only scalar
-    arguments the C++ returns a reference to one element: here a rank-0 view. -/
-def slice (v : View) (args : List Ix) (checked : Bool) : Except Err View := do
+/-- what `Array::operator()(i0,…)` with scalar / range / stride / `__` arguments hands to the view constructor
+    (`data_ + ibegin, storage_, new_dim, new_offset`).  With only scalar arguments the C++ returns a reference to
+    one element: here a rank-0 view. -/
+def sliceRaw (v : View) (args : List Ix) (checked : Bool) : Except Err View := do
   let (inc, nd, ns) ← sliceGo checked v.dims v.strides args
   .ok ⟨v.base + inc, nd, ns⟩
+
+/-- `Array::operator()(i0,…)`: the constructed view (all extents zero as soon as one ranged argument selects nothing) -/
+def slice (v : View) (args : List Ix) (checked : Bool) : Except Err View :=
+  construct (sliceRaw v args checked)
 
 /-- `Array::subset(b0,e0,b1,e1,…)` = `(*this)(range(b0,e0),range(b1,e1),…)` -/
 def subset (v : View) (be : List (EndExpr × EndExpr)) (checked : Bool) : Except Err View :=
   slice v (be.map fun p => Ix.range p.1 p.2) checked
 
-/-- `Array::operator[](i)`: slice the leading dimension (rank 1: the element) -/
-def sub1 (v : View) (e : EndExpr) (checked : Bool) : Except Err View :=
+/-- `Array::operator[](i)`: slice the leading dimension (rank 1: the element); the constructor arguments -/
+def sub1Raw (v : View) (e : EndExpr) (checked : Bool) : Except Err View :=
   match v.dims, v.strides with
   | d :: ds, s :: ss => do
       let j ← getIndexWithLen checked e d
       .ok ⟨v.base + j * s, ds, ss⟩
   | _, _ => .error .bad_rank
+
+/-- `Array::operator[](i)` -/
+def sub1 (v : View) (e : EndExpr) (checked : Bool) : Except Err View :=
+  construct (sub1Raw v e checked)
 
 /-- `Array::T()` (rank 2 only; `my_T<1>` does not exist) -/
 def transpose (v : View) : Except Err View :=
@@ -241,17 +275,20 @@ def permuteGo (dims : List Nat) (strides : List Int) : List Int → Except Err (
 
 /-- `Array::permute(const Index* idim)`.  The second loop ("Missing dimension") requires every dimension of
     the current array to be used exactly once (a repeated `idim` entry is rejected). -/
-def permute (v : View) (p : List Int) : Except Err View :=
+def permuteRaw (v : View) (p : List Int) : Except Err View :=
   if p.length ≠ v.dims.length ∨ v.dims.length ≠ v.strides.length ∨ v.dims = [] then .error .bad_rank else
   if v.isEmpty then .error .empty_array else do
     let (nd, ns) ← permuteGo v.dims v.strides p
     if (List.range v.dims.length).any (fun d => decide ((p.filter (· = (d : Int))).length ≠ 1)) || nd.any (· == 0) then .error .invalid_dimension else
     .ok ⟨v.base, nd, ns⟩
 
+/-- `Array::permute`: the constructed view (never a zero extent: such arrays are rejected above) -/
+def permute (v : View) (p : List Int) : Except Err View := construct (permuteRaw v p)
+
 /-- `Array::diag_vector(offdiag)` (rank 2).  For an `empty()` matrix the C++ returns a
     default-constructed vector (`data_ = 0`, no element); the model keeps a zero-extent view (it has
     no element either, so its base is immaterial; the driver prints `ok null`). -/
-def diagVector (v : View) (k : Int) : Except Err View :=
+def diagVectorRaw (v : View) (k : Int) : Except Err View :=
   match v.dims, v.strides with
   | [d0, d1], [s0, s1] =>
     if d0 = 0 then .ok ⟨if k ≥ 0 then v.base + s1 * k else v.base - s0 * k, [0], [s0 + s1]⟩
@@ -266,8 +303,11 @@ def diagVector (v : View) (k : Int) : Except Err View :=
       .ok ⟨v.base - s0 * k, [n.toNat], [s0 + s1]⟩
   | _, _ => .error .bad_rank
 
+/-- `diag_vector`: a rank-1 result is the same with or without the canonicalisation -/
+def diagVector (v : View) (k : Int) : Except Err View := construct (diagVectorRaw v k)
+
 /-- `Array::submatrix_on_diagonal(ibegin, iend)` (rank 2); the range test is in both builds -/
-def submatrixOnDiagonal (v : View) (b e : Int) : Except Err View :=
+def submatrixOnDiagonalRaw (v : View) (b e : Int) : Except Err View :=
   match v.dims, v.strides with
   | [d0, d1], [s0, s1] =>
     if d0 ≠ d1 then .error .invalid_operation
@@ -276,6 +316,9 @@ def submatrixOnDiagonal (v : View) (b e : Int) : Except Err View :=
       let len := (e - b + 1).toNat
       .ok ⟨v.base + b * (s0 + s1), [len, len], [s0, s1]⟩
   | _, _ => .error .bad_rank
+
+/-- `Array::submatrix_on_diagonal`: the constructed view (`ibegin ≤ iend`: no zero extent) -/
+def submatrixOnDiagonal (v : View) (b e : Int) : Except Err View := construct (submatrixOnDiagonalRaw v b e)
 
 def prodInt : List Int → Int
   | [] => 1
@@ -291,7 +334,7 @@ def reshapeStrides (s0 : Int) : List Nat → List Int
     | [] => []
 
 /-- `Array::reshape(const ExpressionSize<NewRank>& dims)` (rank-1 `*this`, any stride) -/
-def reshape (v : View) (nd : List Int) : Except Err View :=
+def reshapeRaw (v : View) (nd : List Int) : Except Err View :=
   match v.dims, v.strides with
   | [d0], [s0] =>
     if nd = [] then .error .bad_rank
@@ -302,8 +345,12 @@ def reshape (v : View) (nd : List Int) : Except Err View :=
       .ok ⟨v.base, ndn, reshapeStrides s0 ndn⟩
   | _, _ => .error .bad_rank
 
-/-- `Array::soft_link()`: same data, dimensions and offsets, no `Storage` -/
-def softLink (v : View) : Except Err View := .ok v
+/-- `reshape`: an empty vector reshaped to `(0,2)`, `(3,0)`, … has all extents zero -/
+def reshape (v : View) (nd : List Int) : Except Err View := construct (reshapeRaw v nd)
+
+/-- `Array::soft_link()`: same data, dimensions and offsets, no `Storage`, built by the second view constructor
+    (`Array(data_, 0, dimensions_, offset_, gradient_index())`) -/
+def softLink (v : View) : Except Err View := construct (.ok v)
 
 /-- the loop of `is_contiguous()` counting down from `Rank-1` (i.e. with F-08 repaired);
     lists are passed reversed -/
@@ -346,6 +393,23 @@ inductive Op
   | reshape (nd : List Int)
   | softLink
 deriving Repr
+
+/-- what the member function computes, before the view constructor (the result of the tree without F-76) -/
+def applyRaw (checked : Bool) (v : View) : Op → Except Err View
+  | .slice args => sliceRaw v args checked
+  | .subset be => sliceRaw v (be.map fun p => Ix.range p.1 p.2) checked
+  | .sub1 e => sub1Raw v e checked
+  | .T => transpose v
+  | .permute p => permuteRaw v p
+  | .diag k => diagVectorRaw v k
+  | .subdiag b e => submatrixOnDiagonalRaw v b e
+  | .reshape nd => reshapeRaw v nd
+  | .softLink => .ok v
+
+/-- does the operation build its result with one of the two view constructors? (all but `T`) -/
+def Op.constructs : Op → Bool
+  | .T => false
+  | _ => true
 
 def apply (checked : Bool) (v : View) : Op → Except Err View
   | .slice args => slice v args checked
